@@ -204,6 +204,17 @@ fn check_input(inp: &Input, quick: bool, rep: &mut Report) {
     if !m.ones.is_empty() && !m.zeros.is_empty() {
         rep.distinct(&(inp.len, &m.bits, feature(&inp.words, inp.len)));
     }
+    if inp.len == 0 && inp.words.is_empty() {
+        // BitVec::new() / Default: the empty vector
+        for bv in [BitVec::new(), BitVec::default()] {
+            rep.trans(8);
+            let ok = bv.len() == 0 && bv.is_empty() && bv.count_ones() == 0 && bv.count_zeros() == 0 && bv.rank1(0) == 0 && bv.rank1(usize::MAX) == 0 && bv.rank0(5) == 0
+                && bv.select1(0).is_none() && bv.select0(0).is_none() && bv.select1(usize::MAX).is_none() && catch(|| bv.get(0)).is_err();
+            if !ok {
+                rep.fail("new():not-empty-vector", 0, || json!({"kind":"bitvec","words":[],"len":0,"rate":null}));
+            }
+        }
+    }
     for (ri, rate) in rates_for(inp, quick).into_iter().enumerate() {
         check_bitvec(&inp.words, inp.len, rate, &m, ri == 0, rep);
     }
